@@ -880,6 +880,7 @@ pub fn srand(g: &mut Gen, r: &mut Rng, cases: usize, max_ops: usize) {
         g.cases += 1;
         g.note(&format!("replicas:{nrep}:{m}"));
         let nops = r.below(max_ops as u64 + 1);
+        let mut pending: Vec<(u64, u64)> = vec![];
         for _ in 0..nops {
             if r.chance(3, 5) {
                 let i = r.below(nk as u64) as usize;
@@ -899,7 +900,20 @@ pub fn srand(g: &mut Gen, r: &mut Rng, cases: usize, max_ops: usize) {
                 if i == j {
                     j = (j + 1) % nrep;
                 }
-                g.op(format!("rpull {i} {j} {m}"));
+                if join && r.chance(1, 3) {
+                    // an in-flight pull: the ranges are computed now and fetched later (stale)
+                    if !pending.contains(&(i, j)) {
+                        g.op(format!("rplan {i} {j}"));
+                        pending.push((i, j));
+                        g.note("op:stale-plan");
+                    }
+                } else {
+                    g.op(format!("rpull {i} {j} {m}"));
+                }
+            }
+            if !pending.is_empty() && r.chance(1, 3) {
+                let (i, j) = pending.remove(r.below(pending.len() as u64) as usize);
+                g.op(format!("rapply {i} {j} {m}"));
             }
             if r.chance(1, 6) {
                 let h = r.below(nrep);
